@@ -84,10 +84,7 @@ func VerifC08_OriginSendBudget() {
 	spent := std.Coins{}
 	m := &gno.Machine{Context: execctx.ExecContext{OriginSend: budget, OriginSendSpent: &spent, Banker: bk}}
 
-	steps := 2
-	if verifThorough() {
-		steps = 3
-	}
+	steps := 2 // both tiers: a third call multiplies the 39 000 paths of two by ~150
 	for s := 0; s < steps; s++ {
 		// 1 or 2 entries, any order, duplicates allowed, any amounts
 		n := 1 + verifChoose("entries", 2)
